@@ -416,16 +416,22 @@ Section Tree.
   Qed.
 
   (** * Steps of the item loops *)
+  Lemma remember_owner_frame cr o s :
+    cs_types (remember_owner cr o s) = cs_types s /\ cs_cache (remember_owner cr o s) = cs_cache s.
+  Proof. unfold remember_owner. destruct (nassoc cr (cs_owners s)); split; reflexivity. Qed.
+
   Lemma use_or_own_frame hf ow name rf cr s s' :
     use_or_own hf g ow name rf cr s = COk s' -> agree [] (cs_types s) (cs_types s') /\ cs_cache s' = cs_cache s.
   Proof.
     unfold use_or_own. destruct (find_owner hf g (cs_owners s) rf) as [[[other orig]|]|]; [| |discriminate].
-    - destruct other as [i|w]; [|intro H; injection H as <-; split; [apply agree_refl | reflexivity]].
-      destruct (owner_eqb ow (OwIface i)); [intro H; injection H as <-; split; [apply agree_refl | reflexivity]|].
+    - intro H. inv_bind H as s1 H1. injection H as <-.
+      destruct (remember_owner_frame cr (other, orig) s1) as [-> ->].
+      destruct other as [i|w]; [|injection H1 as <-; split; [apply agree_refl | reflexivity]].
+      destruct (owner_eqb ow (OwIface i)); [injection H1 as <-; split; [apply agree_refl | reflexivity]|].
       destruct ow as [me|me].
-      + destruct (upd_if _ _ _) as [t|] eqn:E; [|discriminate]. intro H. injection H as <-. split; [|reflexivity].
+      + destruct (upd_if _ _ _) as [t|] eqn:E; [|discriminate]. injection H1 as <-. split; [|reflexivity].
         eapply agree_upd_if; [exact E|]. right. reflexivity.
-      + destruct (upd_world _ _ _) as [t|] eqn:E; [|discriminate]. intro H. injection H as <-. split; [|reflexivity].
+      + destruct (upd_world _ _ _) as [t|] eqn:E; [|discriminate]. injection H1 as <-. split; [|reflexivity].
         eapply agree_upd_world; [exact E|]. right. intro x. split; reflexivity.
     - destruct (nassoc cr (cs_owners s)); [discriminate|]. intro H. injection H as <-. split; [apply agree_refl | reflexivity].
   Qed.
